@@ -21,6 +21,7 @@ type fakeMem struct {
 	reads    int
 	writes   int
 	written  map[uint32]byte
+	onRead   func(a uint32) // what the device does, besides answering, when it is read (nil: nothing)
 }
 
 func fakeVal(id int, a uint32) byte {
@@ -32,6 +33,9 @@ func fakeVal(id int, a uint32) byte {
 func (f *fakeMem) Read(a uint32) byte {
 	f.lastAddr = a
 	f.reads++
+	if f.onRead != nil {
+		f.onRead(a)
+	}
 	if v, ok := f.written[a]; ok {
 		return v
 	}
@@ -641,12 +645,49 @@ func C13(r *vf.Run) {
 				}
 			}
 			call := fmt.Sprintf("EaDump($%06x,$%06x) (start&15=%d, %d bytes%s)", start, end, start&15, length, short)
+			// a device that, when read, itself dumps a stretch of the same bus into a buffer of its own (a
+			// debugger's watch window, a DMA model): the outer dump still owes the caller single-read bytes
+			nestedDumps := 0
+			if di%4 == 3 {
+				nesting := false
+				scratch := make([]byte, 64)
+				hook := func(a uint32) {
+					if nesting || nestedDumps >= 8 {
+						return
+					}
+					nesting = true
+					defer func() { nesting = false; _ = recover() }()
+					ns := a &^ 15
+					if nestedDumps%2 == 1 && ns >= 16 {
+						ns -= 16
+					}
+					if ns > 0xFFFFC0 {
+						ns = 0xFFFFC0 // (the nested range stays inside the 24-bit space)
+					}
+					nestedDumps++
+					b.EaDump(ns, ns+uint32(16+nestedDumps*5)-1, scratch)
+				}
+				for _, m := range mems {
+					if m.fake != nil {
+						m.fake.onRead = hook
+					}
+				}
+				call += ", devices that dump the bus from their own Read"
+			}
 			var n int
 			panicked := func() (p interface{}) {
 				defer func() { p = recover() }()
 				n = b.EaDump(start, end, data)
 				return nil
 			}()
+			for _, m := range mems {
+				if m.fake != nil {
+					m.fake.onRead = nil
+				}
+			}
+			if nestedDumps > 0 {
+				cells["dump-with-nested-dumps-from-devices"]++
+			}
 			r.Eval(1)
 			bk := "single"
 			for _, k := range []string{"mem>mem", "mem>hole", "hole>mem"} {
